@@ -689,7 +689,9 @@ def classify_live(b, al, x):
     body = b.unit[4]
     decls = {str(d[1]): d for d in b.unit[3]}
     for L in enclosing_loops(al):
-        wr = b.names(L.node.defines_symbols, L.env) | {b.map_name(v, L.env) for v in loop_vars(L.stmt)}
+        own = {str(L.stmt[1])} if _h(L.stmt) == 'do' else set()
+        inner = {v for k in kids_of(L.stmt) for t in k for v in loop_vars(t)}
+        wr = b.names(L.node.defines_symbols, L.env) | {b.map_name(v, L.env) for v in (inner - own)}
         if x in wr:
             return 'live-loop-back-edge'
     if x in decls and str(decls[x][3]) == 'none' and x in [str(a) for a in b.unit[2]]:
